@@ -39,6 +39,9 @@ func c08InDomain(ecoName, s string) bool {
 		if len(id) > 1 && id[0] == '0' && strings.Trim(id, "0123456789") == "" {
 			return false
 		}
+		if len(id) > 18 && strings.Trim(id, "0123456789") == "" {
+			return false // the quantifier stops at 18-digit numeric identifiers
+		}
 	}
 	if ecoName == "nuget" {
 		if k := strings.Index(s, "+"); k >= 0 {
